@@ -614,7 +614,7 @@ func (l *lexer) lexFuncDef() action {
 }
 
 func (l *lexer) lexToken(tok int) action {
-	if tok == 0 && l.heredoc.exists() {
+	if tok <= 0 && l.heredoc.exists() {
 		// end of input before the here-documents of the last line
 		l.error(l.pos, "syntax error: here-document delimited by EOF")
 		return nil
